@@ -1254,3 +1254,12 @@ Section ScanWhile.
     apply scan_while_loop_orbit; lia.
   Qed.
 End ScanWhile.
+
+(* ------------------------------------------------------------------ the truth test of While / Scan-While *)
+Lemma truthy_is_ktruth : forall t, while_truth_known t = false -> truthy t = Ok (ktruth t).
+Proof.
+  intros t H. destruct t as [z|f|c|s|l|kvs]; try reflexivity.
+  - destruct s; reflexivity.
+  - discriminate.
+  - destruct kvs; [discriminate|reflexivity].
+Qed.
